@@ -483,6 +483,11 @@ pub const VALUATIONS: &[[&str; 6]] = &[
     ["0.3", "0.1", "3", "0.1", "-0.3", "0.6"],
     ["-0.30000000000000004", "0.1", "3", "0.7", "0.1", "3"],
     ["1", "0.1", "0.1", "-0.010000000000000002", "10", "0.1"],
+    // small indexes: chains of indexings succeed at every step, or fail at the first, the second or the third
+    ["1", "1", "2", "1", "2", "1"],
+    ["4", "1", "1", "2", "9", "1"],
+    ["2", "1", "9", "0", "1", "1"],
+    ["2", "2", "1", "3", "1", "2"],
 ];
 
 pub fn pexpr_program(e: &str, valuation: &[&str; 6]) -> String {
@@ -490,8 +495,8 @@ pub fn pexpr_program(e: &str, valuation: &[&str; 6]) -> String {
     for (i, v) in valuation.iter().enumerate() {
         s.push_str(&format!("v{i} <- {v}\n"));
     }
-    s.push_str("w0 <- 0\nw1 <- 0\nlst <- [10, 20, 30]\n");
-    s.push_str(&format!("DISPLAY({e})\nDISPLAY(w0)\nDISPLAY(w1)\n"));
+    s.push_str("w0 <- 0\nw1 <- 0\nlst <- [10, 20, 30]\nnst <- [[[1, 2], [3]], [[4, 5], \"xy\"], \"pq\"]\n");
+    s.push_str(&format!("DISPLAY({e})\nDISPLAY(w0)\nDISPLAY(w1)\nDISPLAY(lst)\nDISPLAY(nst)\n"));
     s
 }
 
